@@ -5,6 +5,7 @@ package main
 import (
 	"fmt"
 	"io"
+	"regexp"
 	"strconv"
 	"strings"
 
@@ -20,6 +21,8 @@ func init() {
 			"non-trivial = at least one error was reachable through dispatch; distinct = distinct (configuration, format, operands)",
 	})
 }
+
+var panicLabelRe = regexp.MustCompile(`\(PANIC=[A-Za-z]+ method: `)
 
 type hookCall struct {
 	id   int
@@ -503,7 +506,8 @@ func c17check(w *Worker, cs *c17case, hooked bool, idx int64) {
 		w.Count("twin_unparsable", 1)
 		return
 	}
-	if got, want := canonP(p), canon(exp); got != want {
+	normLabel := func(x string) string { return panicLabelRe.ReplaceAllString(x, "(PANIC=M method: ") }
+	if got, want := normLabel(canonP(p)), normLabel(canon(exp)); got != want {
 		w.Violate("C17 rendering", "redact "+q(ro.out)+" canonical "+q(got)+", expected "+q(want)+" for "+cs.String()+" hook="+sprint(hooked), csf())
 		return
 	}
